@@ -436,8 +436,13 @@ fn huge_aggregation_case<P: G>(m: usize) -> Box<dyn Case> {
         let wit = Wit::default_for(&cfg);
         let built = match catch(|| build::<P>(&cfg, &wit)) {
             Ok(Ok(b)) => b,
-            other => {
-                res.violate("construct", format!("constructors failed / panicked for aggregation {}: {:?}", m, other.map(|r| r.map(|_| ()).map_err(|e| crate::api::err_name(&e)))));
+            Ok(Err(_)) => {
+                // which aggregation sizes the constructors admit is C17's question; without the statement there is nothing to verify
+                res.outcome = "statement-not-constructible(skipped)".into();
+                return res;
+            },
+            Err(p) => {
+                res.violate("construct", format!("constructors panicked for aggregation {}: {}", m, p));
                 return res;
             },
         };
